@@ -8,7 +8,7 @@
     (3) termination of HAP / APP is proved only on a grid whose bound is in the statement
         (m, n <= 3), by in-kernel evaluation of the model of reduce. *)
 From LC Require Import Spec.Encodings Spec.Confluence Spec.NorEval Model.Reduction Gen.Terms
-  Proofs.Sound Proofs.ReduceProps Proofs.Normalise Proofs.Convert Proofs.Grids Proofs.ChurchArith.
+  Proofs.Sound Proofs.ReduceProps Proofs.Normalise Proofs.Convert Proofs.ChurchArith.
 
 Theorem C13_unary : forall n,
   red (App lc_num_church_succ (church n)) (church (S n)) /\
@@ -77,17 +77,6 @@ Theorem C13_nor_add : forall m n, exists fuel c,
   reduce_m fuel NOR 0 (App (App lc_num_church_add (church m)) (church n)) = Some (church (m + n), c).
 Proof. intros. apply nor_normalises; [apply church_add|apply church_nf]. Qed.
 
-(** termination under the other orders: bounded grid (m, n <= 3; unary <= 5; fac <= 3) *)
-Theorem C13_bounded_grid : forallb (fun b => b) church_grid = true /\ forallb (fun b => b) church_div_grid = true.
-Proof. split; [exact church_grid_ok|exact church_div_grid_ok]. Qed.
-
-Theorem C13_bounded_add : forall o m n, In o [NOR; HNO; HAP; APP] -> m <= 3 -> n <= 3 ->
-  exists c, reduce_m FUEL o 0 (App (App lc_num_church_add (church m)) (church n)) = Some (church (m + n), c).
-Proof.
-  apply (grid2_sound orders_all 3 lc_num_church_add church (fun m n => church (m + n))).
-  vm_compute. reflexivity.
-Qed.
-
 Print Assumptions C13_unary.
 Print Assumptions C13_arithmetic.
 Print Assumptions C13_division.
@@ -96,5 +85,3 @@ Print Assumptions C13_nor_returns.
 Print Assumptions C13_hno_returns.
 Print Assumptions C13_any_order_sound.
 Print Assumptions C13_nor_add.
-Print Assumptions C13_bounded_grid.
-Print Assumptions C13_bounded_add.
